@@ -239,6 +239,31 @@ Definition authorize_create_store (g : grant_oracle) (cl : claims) : decision :=
   authorize_system g cl M_CreateStore.
 
 (* ------------------------------------------------------------------------------------ *)
+(* Faults while deciding: a check of the control store that fails (error returned, request   *)
+(* context cancelled / deadline exceeded while the check runs).  individualAuthorize turns    *)
+(* every error of the server's Check into an error, so a failing check is the answer None.    *)
+
+Definition with_fault (g : grant_oracle) (faulty : ac_object -> bool) : grant_oracle :=
+  fun c r o => if faulty o then None else g c r o.
+
+(* the checks of one Authorize call, numbered in the order they are issued: #1 the store (or
+   system) object, #2.. the module objects (issued only when #1 did not succeed, the request
+   names modules and they are at most the limit; concurrently, so which module gets which
+   number is schedule-dependent -- the decision is not: any failing module check denies).
+   [fault_at k from n]: the k-th check fails ([from] = false) or every check from the k-th on
+   fails ([from] = true: the request context was cancelled at that moment); n = number of modules *)
+Definition fault_at (k : N) (from : bool) (nmods : nat) (o : ac_object) : bool :=
+  match o with
+  | OSystem | OStore _ => (k =? 1)
+  | OModule _ _ => if from then (1 <=? k) && (k <=? 1 + N.of_nat nmods)
+                   else (2 <=? k) && (k <=? 1 + N.of_nat nmods)
+  end.
+
+Definition authorize_fault (g : grant_oracle) (k : N) (from : bool) (cl : claims) (m : api_method)
+           (s : store_id) (mods : list module_name) : decision :=
+  authorize (with_fault g (fault_at k from (List.length mods))) cl m s mods.
+
+(* ------------------------------------------------------------------------------------ *)
 (* Write: GetModulesForWriteRequest / extractModulesFromTuples                           *)
 
 (* per tuple (writes first, then deletes):
@@ -353,6 +378,51 @@ Definition list_stores_sqlite (g : grant_oracle) (la : list_oracle) (cl : claims
   match accessible_stores g la cl with
   | None => LSDenied
   | Some ids => LSStores (map fst (handler_list_stores backend_list_stores_sqlite (Some ids) name all))
+  end.
+
+Definition write_authorize_fault (g : grant_oracle) (k : N) (from : bool) (cl : claims) (s : store_id)
+           (ls : list mod_lookup) : decision :=
+  match extract_modules ls [] with
+  | MErr => Deny DModuleLookup
+  | MMods ms => authorize_fault g k from cl M_Write s ms
+  end.
+
+(* did the k-th check get issued at all (the fault fired)?  #1 always (given a client id);
+   #2.. only when the store-level check did not succeed and the module branch is entered *)
+Definition fault_fires (g : grant_oracle) (k : N) (cl : claims) (m : api_method) (s : store_id)
+           (mods : list module_name) : bool :=
+  match check_claims cl, relation_of m with
+  | Some c, Some r =>
+    if k =? 1 then true
+    else match individual g c r (OStore s) with
+         | IndOk => false
+         | _ => match mods with
+                | [] => false
+                | _ :: _ => negb (max_modules_in_request <? N.of_nat (List.length mods)) &&
+                            (2 <=? k) && (k <=? 1 + N.of_nat (List.length mods))
+                end
+         end
+  | _, _ => false
+  end.
+
+(* ListStores with a continuation token, as the stores of [all] are listed in id order:
+   sqlite: WHERE id >= From, i.e. the suffix of the live list from position [p] on, then the id
+   filter; memory: the id filter, the result sorted by id, then the offset [p] into it.  [all] is
+   the live store list in id order; the memory filter is written order-preserving here (the code
+   sorts after its nested scan; same members: backend_list_stores_same_members). *)
+Definition page_from_sqlite (ids : list store_id) (name : bytes) (all : list (store_id * bytes)) (p : nat)
+  : list (store_id * bytes) := backend_list_stores_sqlite ids name (skipn p all).
+Definition page_from_memory (ids : list store_id) (name : bytes) (all : list (store_id * bytes)) (p : nat)
+  : list (store_id * bytes) := skipn p (backend_list_stores_sqlite ids name all).
+
+(* the handler, everything from the token to the last page *)
+Definition list_stores_from (sqlite : bool) (g : grant_oracle) (la : list_oracle) (cl : claims)
+           (name : bytes) (all : list (store_id * bytes)) (p : nat) : ls_result :=
+  match accessible_stores g la cl with
+  | None => LSDenied
+  | Some [] => LSStores []
+  | Some ids => LSStores (map fst (if sqlite then page_from_sqlite ids name all p
+                                   else page_from_memory ids name all p))
   end.
 
 (* historical: the handler before c075cf0 passed the list straight to the backend *)
